@@ -749,9 +749,24 @@ class Visitor(ast.NodeVisitor):
                         kwargs[PLACEHOLDER] = PLACEHOLDER
                     else:
                         for key, val in kw.items():
+                            if key in kwargs:
+                                # Python does not merge the keyword arguments silently either.
+                                raise TypeError(
+                                    "{}() got multiple values for keyword argument {!r}".format(
+                                        getattr(func, "__name__", func), key
+                                    )
+                                )
+
                             kwargs[key] = val
 
                 else:
+                    if keyword.arg in kwargs:
+                        raise TypeError(
+                            "{}() got multiple values for keyword argument {!r}".format(
+                                getattr(func, "__name__", func), keyword.arg
+                            )
+                        )
+
                     kwargs[keyword.arg] = self.visit(node=keyword.value)
 
             # Please see "NOTE ABOUT PLACEHOLDERS AND RE-COMPUTATION"
